@@ -83,6 +83,7 @@ type Frame struct {
 	paramVals map[string]Term
 	unescaped map[string]bool // alloc refs (term text) that have not escaped
 	nullable map[ssa.Value]bool
+	calleeTypeArgs map[string]types.Type // set while the contract of a generic callee is applied
 }
 
 var frameCounter int
